@@ -234,23 +234,53 @@ theorem det_holdChannelsS (res : Rat) : ∀ (bs : List Rat) (fs : List (Option (
 theorem dropLast_snoc (l : List Nat) (x : Nat) : (l ++ [x]).dropLast = l := by simp
 
 mutual
-theorem det1 (res : Rat) : (n : Node) → ∀ (c : TS) (s : List SCmd) (c' : TS), hasRep n = false →
+theorem det1 (res : Rat) : (n : Node) → ∀ (c : TS) (s : List SCmd) (c' : TS),
     c.resolution = res → trS1 n c = .ok (s, c') → Det c c' (lt1 res n) (la1 res n) (lp1 n)
-  | .hold bases factors dur, c, s, c', _, hr, h => by
+  | .hold bases factors dur, c, s, c', hr, h => by
     simp only [trS1] at h
     split at h
     · cases h
     · rename_i s0 c0 h0
       cases h
       simpa [lt1, la1, lp1] using det_holdChannelsS res bases factors 0 c _ _ hr h0
-  | .rep body count, c, s, c', hn, _, _ => by simp [hasRep] at hn
-  | .iter body length, c, s, c', hn, hr, h => by
-    simp only [hasRep] at hn
+  | .rep body count, c, s, c', hr, h => by
+    simp only [trS1] at h
+    split at h
+    · cases h
+    · rename_i s1 c3 h1
+      have d1 := detL res body _ _ _ (by exact hr) h1
+      split at h
+      · cases h
+        exact ⟨d1.its, d1.res, d1.dep, d1.act, d1.pl⟩
+      · split at h
+        · cases h
+        · rename_i s2 c5 h2
+          cases h
+          have d2 := detL res body _ _ _ (by rw [d1.res]; exact hr) h2
+          refine ⟨by rw [d2.its]; exact d1.its, by rw [d2.res]; exact d1.res, ?_, ?_, ?_⟩
+          · intro ch κ
+            rw [d2.dep, d1.dep, d1.its]
+            simp only [lt1]
+            show ov _ (ov _ (c.depStates ch κ)) = _
+            show ov (Option.map (toDep c.iterations) (ltL res body ch κ))
+              (ov (Option.map (toDep c.iterations) (ltL res body ch κ)) (c.depStates ch κ)) = _
+            cases ltL res body ch κ <;> simp
+          · intro ch
+            rw [d2.act, d1.act]
+            simp only [la1]
+            show ov _ (ov _ (c.activeDep ch)) = _
+            cases laL res body ch <;> simp
+          · intro ch
+            rw [d2.pl, d1.pl]
+            simp only [lp1]
+            show ov _ (ov _ (c.plainVoltage ch)) = _
+            cases lpL body ch <;> simp
+  | .iter body length, c, s, c', hr, h => by
     simp only [trS1] at h
     split at h
     · cases h
     · rename_i s1 c2 h1
-      have d1 := detL res body _ _ _ hn (by exact hr) h1
+      have d1 := detL res body _ _ _ (by exact hr) h1
       have hits1 : c2.iterations = c.iterations ++ [0] := d1.its
       by_cases hl : length > 1
       · simp only [hl, if_true] at h
@@ -258,7 +288,7 @@ theorem det1 (res : Rat) : (n : Node) → ∀ (c : TS) (s : List SCmd) (c' : TS)
         · cases h
         · rename_i s2 c6 h2
           cases h
-          have d2 := detL res body _ _ _ hn (by show c2.resolution = res; rw [d1.res]; exact hr) h2
+          have d2 := detL res body _ _ _ (by show c2.resolution = res; rw [d1.res]; exact hr) h2
           have hits2 : c6.iterations = c.iterations ++ [length - 1] := by
             rw [d2.its]; show c2.iterations.dropLast ++ [length - 1] = _; rw [hits1, dropLast_snoc]
           refine ⟨?_, ?_, ?_, ?_, ?_⟩
@@ -307,13 +337,12 @@ theorem det1 (res : Rat) : (n : Node) → ∀ (c : TS) (s : List SCmd) (c' : TS)
           | some t => simp [toDep, List.append_assoc]
         · intro ch; show c2.activeDep ch = _; rw [d1.act]; simp [la1]
         · intro ch; show c2.plainVoltage ch = _; rw [d1.pl]; simp [lp1]
-theorem detL (res : Rat) : (ns : List Node) → ∀ (c : TS) (s : List SCmd) (c' : TS), hasRepList ns = false →
+theorem detL (res : Rat) : (ns : List Node) → ∀ (c : TS) (s : List SCmd) (c' : TS),
     c.resolution = res → trSL ns c = .ok (s, c') → Det c c' (ltL res ns) (laL res ns) (lpL ns)
-  | [], c, s, c', _, _, h => by
+  | [], c, s, c', _, h => by
     simp only [trSL] at h; cases h
     simpa [ltL, laL, lpL] using Det.refl c
-  | n :: ns, c, s, c', hn, hr, h => by
-    simp only [hasRepList, Bool.or_eq_false_iff] at hn
+  | n :: ns, c, s, c', hr, h => by
     simp only [trSL] at h
     split at h
     · cases h
@@ -322,8 +351,8 @@ theorem detL (res : Rat) : (ns : List Node) → ∀ (c : TS) (s : List SCmd) (c'
       · cases h
       · rename_i s2 c2 h2
         cases h
-        have d1 := det1 res n _ _ _ hn.1 hr h1
-        have d2 := detL res ns _ _ _ hn.2 (by rw [d1.res]; exact hr) h2
+        have d1 := det1 res n _ _ _ hr h1
+        have d2 := detL res ns _ _ _ (by rw [d1.res]; exact hr) h2
         simpa [ltL, laL, lpL] using Det.trans d1 d2
 end
 
